@@ -41,12 +41,15 @@ type mReq struct {
 	id        string // id the OP gave the request ("" when the authorize call did not reach the login redirect)
 	user      string // "" until the user authenticated
 	consumed  bool   // some code of this request has yielded tokens
+	unsure    bool   // an exchange of a code of this request hit a storage fault and answered without tokens: spent or not, nobody knows
 }
 
 type mCode struct {
 	req  int
 	code string
 	used bool // this very code has yielded tokens
+
+	faultedOK bool // (labels only) it did so in a request that hit a storage fault
 }
 
 type model struct {
@@ -205,6 +208,9 @@ func (m *model) judge(a attempt, clients []vkit.ClientSpec) verdict {
 		no = append(no, "code-replayed")
 	} else if rq.consumed {
 		grey = append(grey, "sibling-code-of-consumed-request")
+	}
+	if rq.unsure && !a.code.used {
+		grey = append(grey, "after-faulted-exchange")
 	}
 	if rq.user == "" {
 		no = append(no, "request-not-completed")
